@@ -14,6 +14,9 @@ CONSTANTS Alphabet,      \* set of instructions / probe steps to build programs 
           AppPatterns,   \* set of sequences of directions, e.g. {<<"F","I">>}
           Data0          \* initial operand set
 
+AlphaC == TLCEval(Alphabet)
+AppsC  == TLCEval(AppPatterns)
+
 VARIABLES prog, apps, ai, pc, st, data, cnt, uf, phase, log
 
 vars == <<prog, apps, ai, pc, st, data, cnt, uf, phase, log>>
@@ -42,11 +45,11 @@ Init == /\ prog = <<>> /\ apps = <<>> /\ ai = 0 /\ pc = 0 /\ st = <<>>
         /\ data = Data0 /\ cnt = -1 /\ uf = FALSE /\ phase = "build" /\ log = <<>>
 
 Extend == /\ phase = "build" /\ Len(prog) < MaxLen
-          /\ \E ins \in Alphabet : prog' = Append(prog, ins)
+          /\ \E ins \in AlphaC : prog' = Append(prog, ins)
           /\ UNCHANGED <<apps, ai, pc, st, data, cnt, uf, phase, log>>
 
 Start == /\ phase = "build" /\ Len(prog) >= 2
-         /\ \E a \in AppPatterns : apps' = a
+         /\ \E a \in AppsC : apps' = a
          /\ ai' = 1 /\ pc' = 1 /\ st' = <<>> /\ cnt' = -1 /\ phase' = "run"
          /\ UNCHANGED <<prog, data, uf, log>>
 
